@@ -19,9 +19,12 @@ VARIABLES
     seen,    \* [Actors -> ver observed when the handle was opened]
     ro,      \* actors whose handle was opened read-only (same exclusive lock; they do not commit)
     created, \* the database exists (open / open_read_only need that)
+    kept,    \* actors whose client keeps an object obtained from its handle (a tree reader from get_tree, which shares
+             \* the handle's internals) - possibly beyond the life of the handle
+    hasTree, \* a tree was committed through some handle (get_tree answers for existing trees only)
     trace
 
-vars == <<st, holder, ver, seen, ro, created, trace>>
+vars == <<st, holder, ver, seen, ro, created, kept, hasTree, trace>>
 
 Live == {a \in Actors : st[a] \in {"opening", "open"}}
 
@@ -30,6 +33,7 @@ Init ==
     /\ holder = 0 /\ ver = 0
     /\ seen = [a \in Actors |-> 0]
     /\ ro = {} /\ created = FALSE
+    /\ kept = {} /\ hasTree = FALSE
     /\ trace = <<>>
 
 Log(e) == trace' = Append(trace, e)
@@ -40,7 +44,7 @@ OpenBegin(a) ==
     /\ st' = [st EXCEPT ![a] = "opening"]
     /\ holder' = a
     /\ created' = TRUE
-    /\ UNCHANGED <<ver, seen, ro>>
+    /\ UNCHANGED <<ver, seen, ro, kept, hasTree>>
     /\ Log([a |-> "OpenBegin", actor |-> a])
 
 \* log replay done, handle returned
@@ -48,19 +52,19 @@ OpenEnd(a) ==
     /\ st[a] = "opening"
     /\ st' = [st EXCEPT ![a] = "open"]
     /\ seen' = [seen EXCEPT ![a] = ver]
-    /\ UNCHANGED <<holder, ver, ro, created>>
+    /\ UNCHANGED <<holder, ver, ro, created, kept, hasTree>>
     /\ Log([a |-> "OpenEnd", actor |-> a, ver |-> ver])
 
 \* an open attempt while somebody holds the lock: Error::Locked, nothing changes
 OpenFail(a) ==
     /\ st[a] = "none" /\ holder # 0
-    /\ UNCHANGED <<st, holder, ver, seen, ro, created>>
+    /\ UNCHANGED <<st, holder, ver, seen, ro, created, kept, hasTree>>
     /\ Log([a |-> "OpenFail", actor |-> a])
 
 Commit(a) ==
     /\ st[a] = "open" /\ a \notin ro
     /\ ver' = ver + 1
-    /\ UNCHANGED <<st, holder, seen, ro, created>>
+    /\ UNCHANGED <<st, holder, seen, ro, created, kept, hasTree>>
     /\ Log([a |-> "Commit", actor |-> a, ver |-> ver + 1])
 
 \* Drop for Db: everything persisted, then unlock
@@ -69,7 +73,8 @@ Drop(a) ==
     /\ st' = [st EXCEPT ![a] = "none"]
     /\ holder' = 0
     /\ ro' = ro \ {a}
-    /\ UNCHANGED <<ver, seen, created>>
+    \* (objects the client still keeps do not keep the directory locked: the lock goes with the handle)
+    /\ UNCHANGED <<ver, seen, created, kept, hasTree>>
     /\ Log([a |-> "Drop", actor |-> a])
 
 \* the holding process is killed: the kernel drops the lock
@@ -78,11 +83,25 @@ Die(a) ==
     /\ st' = [st EXCEPT ![a] = "none"]
     /\ holder' = 0
     /\ ro' = ro \ {a}
-    /\ UNCHANGED <<ver, seen, created>>
+    /\ UNCHANGED <<ver, seen, created, kept, hasTree>>
     /\ Log([a |-> "Die", actor |-> a])
 
+\* the client obtains a tree reader from its handle (a writable handle commits the tree first if there is none) and
+\* keeps it; it may give it back at any later time, also after the handle is gone
+Keep(a) ==
+    /\ st[a] = "open" /\ a \notin Child /\ a \notin kept
+    /\ hasTree \/ a \notin ro
+    /\ kept' = kept \cup {a} /\ hasTree' = TRUE
+    /\ UNCHANGED <<st, holder, ver, seen, ro, created>>
+    /\ Log([a |-> "Keep", actor |-> a])
+Release(a) ==
+    /\ a \in kept
+    /\ kept' = kept \ {a}
+    /\ UNCHANGED <<st, holder, ver, seen, ro, created, hasTree>>
+    /\ Log([a |-> "Release", actor |-> a])
+
 Next ==
-    \E a \in Actors : OpenBegin(a) \/ OpenEnd(a) \/ OpenFail(a) \/ Commit(a) \/ Drop(a) \/ Die(a)
+    \E a \in Actors : OpenBegin(a) \/ OpenEnd(a) \/ OpenFail(a) \/ Commit(a) \/ Drop(a) \/ Die(a) \/ Keep(a) \/ Release(a)
 
 Spec == Init /\ [][Next]_vars
 
@@ -90,9 +109,9 @@ AtMostOneLive == Cardinality(Live) <= 1
 HolderIsLive == (holder # 0) <=> (Live = {holder})
 \* after the handle is dropped (or its process died) the directory can be opened again
 Reopenable == (Live = {}) => (\A a \in Actors : ENABLED OpenBegin(a))
-FailedOpenChangesNothing == [][\A a \in Actors : OpenFail(a) => UNCHANGED <<st, holder, ver, seen, ro, created>>]_vars
+FailedOpenChangesNothing == [][\A a \in Actors : OpenFail(a) => UNCHANGED <<st, holder, ver, seen, ro, created, kept, hasTree>>]_vars
 
-ViewNoTrace == <<st, holder, ver, seen, ro, created>>
+ViewNoTrace == <<st, holder, ver, seen, ro, created, kept, hasTree>>
 Bound == ver <= 3
 
 (* generation: an open is one call in the implementation (OpenBegin;OpenEnd fused) *)
@@ -103,13 +122,13 @@ GenOpen(a, m) ==
     /\ st' = [st EXCEPT ![a] = "open"] /\ holder' = a /\ seen' = [seen EXCEPT ![a] = ver]
     /\ ro' = IF m = "ro" THEN ro \cup {a} ELSE ro
     /\ created' = TRUE
-    /\ UNCHANGED ver
+    /\ UNCHANGED <<ver, kept, hasTree>>
     /\ Log([a |-> "Open", actor |-> a, ok |-> TRUE, ver |-> ver, mode |-> m])
 GenOpenFail(a, m) ==
     /\ st[a] = "none" /\ holder # 0 /\ ModeOK(m)
-    /\ UNCHANGED <<st, holder, ver, seen, ro, created>>
+    /\ UNCHANGED <<st, holder, ver, seen, ro, created, kept, hasTree>>
     /\ Log([a |-> "Open", actor |-> a, ok |-> FALSE, ver |-> ver, mode |-> m])
-GenNext == \E a \in Actors : (\E m \in Modes : GenOpen(a, m) \/ GenOpenFail(a, m)) \/ Commit(a) \/ Drop(a) \/ Die(a)
+GenNext == \E a \in Actors : (\E m \in Modes : GenOpen(a, m) \/ GenOpenFail(a, m)) \/ Commit(a) \/ Drop(a) \/ Die(a) \/ Keep(a) \/ Release(a)
 GenSpec == Init /\ [][GenNext]_vars
 EmitTrace == TLCGet("level") < GenLen \/ PrintT("REPLAY " \o ToJson(trace))
 =============================================================================
